@@ -837,7 +837,7 @@ def stratified(runs, k, rng, fine=False):
     for v in classes.values():
         rng.shuffle(v)
     out = []
-    keys = sorted(classes, key=str)
+    keys = sorted(classes, key=lambda c: (c[2] != "none", str(c)))  # the completed runs first, then the failure points
     while len(out) < k and any(classes.values()):
         for key in keys:
             if classes[key] and len(out) < k:
